@@ -28,7 +28,7 @@ type C09Case struct {
 	Manifest string       `json:"manifest"` // extra manifest of main (outputs) when Cmd == generate
 }
 
-const c09Rule = "a valid generated layout (main + 0-2 imports, one possibly importing the other, + 0-2 previous versions, 1-3 files) with exactly one injected violation of a documented rule; non-trivial = the violation is not at the top level of the main package's first file (it is nested inside containers/generic arguments/union cases, or sits in another file, an imported package, a package imported by an import, or a previous version); distinct = hash of all files"
+const c09Rule = "a valid generated layout (main + 0-2 imports, one possibly importing the other, + 0-2 previous versions, 1-3 files) with exactly one injected violation of a documented rule; non-trivial = the violation is not at the top level of the main package's first file (it is nested inside containers/generic arguments/union cases, or sits in another file, an imported package, a package imported by an import, or a previous version; in a third of the import cases the packages are arranged in sub-directories so that the relative path a nested package uses for its import would, taken from the top-level package directory, reach a valid decoy package of the same namespace); distinct = hash of all files"
 
 // badType returns a type expression that violates `rule`, or nil if the rule is not a type-level rule.
 func badType(t *rapid.T, rule string, p *model.Package, env *model.Env) *model.Type {
@@ -506,7 +506,106 @@ func genC09(t *rapid.T) (C09Case, bool) {
 		c.Nesting = where
 	}
 	c.Layout = model.EmitLayout(root, model.EmitOptions{ExtraManifest: c.Manifest})
+	if rapid.IntRange(0, 2).Draw(t, "relocate") == 0 {
+		relocateC09(&c, root)
+	}
 	return c, true
+}
+
+// relocateC09 moves packages into sub-directories so that the relative path by which a nested package
+// (an import of an import, an import of a previous version) names its own import denotes, when taken from
+// the top-level package directory instead, a different, valid package of the same namespace (a decoy).
+// Relative import paths are relative to the package that declares them; the decoy must never be read.
+func relocateC09(c *C09Case, root *model.Package) {
+	repl := func(files model.Files, from, to string) model.Files {
+		out := model.Files{}
+		for n, txt := range files {
+			if n == "_package.yml" {
+				txt = strings.ReplaceAll(txt, "../"+from+"\n", "../"+to+"\n")
+			}
+			out[n] = txt
+		}
+		return out
+	}
+	switch c.Where {
+	case "import2":
+		// main -> importer -> BadDir: importer and BadDir move to nested/, a valid copy of BadDir stays on top
+		var importer *model.Package
+		for _, im := range root.Imports {
+			for _, im2 := range im.Imports {
+				if im2.DirName == c.BadDir {
+					importer = im
+				}
+			}
+		}
+		if importer == nil || importer.DirName == c.BadDir {
+			return
+		}
+		for _, l := range []model.Layout{c.Layout, c.Control} {
+			good := c.Control[c.BadDir]
+			l["nested/"+importer.DirName] = l[importer.DirName]
+			l["nested/"+c.BadDir] = l[c.BadDir]
+			delete(l, importer.DirName)
+			l[c.BadDir] = good // the decoy
+			for dir, files := range l {
+				if strings.HasPrefix(dir, "nested/") {
+					continue
+				}
+				files = repl(files, importer.DirName, "nested/"+importer.DirName)
+				if dir != c.BadDir {
+					files = repl(files, c.BadDir, "nested/"+c.BadDir)
+				}
+				l[dir] = files
+			}
+		}
+		c.BadDir = "nested/" + c.BadDir
+		c.Where = "import2-relocated"
+	case "import":
+		// a previous version keeps its own snapshot of the imports: old/v0 imports old/<BadDir> (invalid), while the
+		// current package imports the valid top-level copy
+		if len(root.Versions) == 0 {
+			return
+		}
+		v := root.Versions[0].Pkg
+		uses := false
+		for _, im := range v.Imports {
+			if im.DirName == c.BadDir {
+				uses = true
+			}
+		}
+		if !uses {
+			return
+		}
+		for _, l := range []model.Layout{c.Layout, c.Control} {
+			bad := l[c.BadDir]
+			var addImports func(q *model.Package)
+			addImports = func(q *model.Package) {
+				for _, im := range q.Imports {
+					if _, done := l["old/"+im.DirName]; !done {
+						l["old/"+im.DirName] = c.Control[im.DirName]
+						addImports(im)
+					}
+				}
+			}
+			addImports(v)
+			l["old/"+c.BadDir] = bad
+			l[c.BadDir] = c.Control[c.BadDir]
+			l["old/"+v.DirName] = l[v.DirName]
+			delete(l, v.DirName)
+			l["main"] = func() model.Files {
+				out := model.Files{}
+				for n, txt := range l["main"] {
+					if n == "_package.yml" {
+						txt = strings.ReplaceAll(txt, ": ../"+v.DirName+"\n", ": ../old/"+v.DirName+"\n")
+					}
+					out[n] = txt
+				}
+				return out
+			}()
+		}
+		c.BadDir = "old/" + c.BadDir
+		c.Where = "version-import-relocated"
+	}
 }
 
 // c09KnownID: narrow signatures of the known findings of C09.
